@@ -1,4 +1,5 @@
-"""./check replay <path> — re-run a recorded counterexample against the real build"""
+"""./check replay <path> — re-run a recorded counterexample against the real build of /repo's current tree.
+exit 1: the violation reproduces; exit 0: it does not; exit 2: this kind of record cannot be replayed standalone."""
 from __future__ import annotations
 
 import json
@@ -7,15 +8,48 @@ import json
 def main(path):
     rec = json.load(open(path))
     eng = rec.get('engine')
-    if eng == 'E-PYSYM':
+    if eng == 'E-PYSYM' and 'direction' in rec:
         from . import pyrun
         ok = pyrun.replay_python(rec)
         print(json.dumps(rec.get('native'), indent=1))
-    elif eng == 'E-KANI':
-        from . import kanirun
-        ok = kanirun.replay(rec, verbose=True)
+    elif eng == 'E-KANI' and 'pdl' in rec and 'input' in rec:
+        ok = replay_kani(rec)
+        if ok is None:
+            print('this harness kind is replayed inside the check run only')
+            return 2
     else:
-        print('unknown engine', eng)
+        print(f'no standalone replay for engine {eng} / this record; re-run the check')
         return 2
     print('REPRODUCED' if ok else 'NOT REPRODUCED')
     return 1 if ok else 0
+
+
+def replay_kani(rec):
+    from . import build, c01, c04, gen, kcheck, model as M, venc
+    from .ref import Model
+    from .rsreplay import NativeRunner
+    kind = rec['sig'].get('kind')
+    f = M.parse_pdl(rec['pdl'])
+    mdl = Model(f)
+    text = build.pdlc(rec['pdl'], 'rust', (), 'replay')
+    unit = gen.Unit(rec['desc'], f, [rec['type']], text, rec['pdl'])
+    it = kcheck.KItem(unit, mdl, rec['type'], kind, rec.get('input_bound', 8), mdl.cost_class(rec['type']), 'replay')
+    if kind in ('c01', 'c04'):
+        data = bytes.fromhex(rec['input'])
+        runner = NativeRunner(text, [rec['type']], '', c01.conv_arms([it]) if kind == 'c01' else '')
+        try:
+            ok, obs = (c01.replay_native if kind == 'c01' else c04.replay_native)(runner, it, data)
+        finally:
+            runner.cleanup()
+    elif kind in ('c02', 'c03', 'c05', 'c16'):
+        words = rec['input']
+        runner = NativeRunner(text, [rec['type']], '', venc.value_arms([it]), venc.rf_text([it]))
+        clauses = ('encode', 'roundtrip') if kind == 'c02' else ('encode',)
+        try:
+            ok, obs = venc.make_replay(clauses)(runner, it, words)
+        finally:
+            runner.cleanup()
+    else:
+        return None
+    print(json.dumps(obs, indent=1)[:3000])
+    return ok
